@@ -111,4 +111,57 @@ def runS (T : Tables) (R : RenderCfg) (g : Gen) (h : Hist) : List Op → Gen × 
 /-- the levels right after `Generator(markup, **settings)` -/
 def initHist (settings : List (Str × CVal)) : Hist := [⟨settings⟩]
 
+/-! ### round h9: what the code DOES, in closed form (no frames, no copies)
+
+The statement's rule (`resolve`) lets `auto` defer to the next level.  The code does not: a level
+that assigns `auto` (or `Maybe`, or text that is neither yes nor no) assigns THE BUILT-IN DEFAULT.
+So the option in force is decided by the chronologically LAST explicit assignment among the levels
+that are still open — whatever it says. -/
+
+/-- every value assigned to `k` at the levels still open, in the order the assignments were made:
+    the generator's own settings first, then each open block from the outermost to the innermost,
+    each level's `begin(**settings)` followed by its later `set()/update()/[]=` -/
+def assignments (h : Hist) (k : Str) : List CVal :=
+  h.reverse.flatMap (fun lv => lv.log.filterMap (fun kv => if kv.1 = k then some kv.2 else none))
+
+/-- the last explicit assignment of `k` among the open levels -/
+def lastExplicit (h : Hist) (k : Str) : Option CVal := (assignments h k).getLast?
+
+/-- THE RULE THE CODE FOLLOWS (all option values, all stacks): an on/off on the tag decides
+    (on = forced); else the last explicit assignment decides, reading on → apply, off → skip, and
+    auto / Maybe / unknown text → the built-in default (NOT the next level); no assignment at all
+    → the built-in default.  A stored value that is no option value at all (an `int`, stored raw by
+    `begin/update/[]=`) makes the tag call raise AttributeError. -/
+def codeRule (T : Tables) (default : Bool) (tagOpt : Trool) (last : Option CVal) : Except PyErr (Bool × Bool) :=
+  match tagOpt with
+  | .yes => .ok (true, true)
+  | .no => .ok (false, false)
+  | .maybe =>
+    match last with
+    | none => .ok (default, false)
+    | some v =>
+      match T.parseTroolC v with
+      | .ok .yes => .ok (true, false)
+      | .ok .no => .ok (false, false)
+      | .ok .maybe => .ok (default, false)
+      | .error e => .error e
+
+/-- the same rule on the level readings (innermost first): the innermost level that MENTIONS the
+    option decides, `auto` meaning the built-in default -/
+def codeRuleL (default : Bool) (tagOpt : Trool) (levels : List (Option Trool)) : Bool × Bool :=
+  match tagOpt with
+  | .yes => (true, true)
+  | .no => (false, false)
+  | .maybe =>
+    (match levels.findSome? id with
+     | some .yes => true
+     | some .no => false
+     | _ => default, false)
+
+/-- WHERE KF-C19-a BITES: the innermost level that mentions the option says `auto`, and the nearest
+    on/off further out is there and differs from the built-in default -/
+def ShadowingAuto (b : Bool) (levels : List (Option Trool)) : Prop :=
+  ∃ (pre post : List (Option Trool)) (c : Bool),
+    levels = pre ++ some .maybe :: post ∧ (∀ x ∈ pre, x = none) ∧ firstOnOff post = some c ∧ c ≠ b
+
 end Flatland.C19.Spec
